@@ -145,6 +145,19 @@ func classCase(c *fw.Ctx, t shimType) {
 		if err := csproto.Unmarshal(b2, m3); err != nil || !t.ops.equal(m, m3) {
 			fail("unmarshal-vs-runtime", "bytes from the runtime's Marshal do not decode to an equal message with csproto.Unmarshal", fmt.Sprint(m), fmt.Sprint(m3, err))
 		}
+		// … and into a destination that already holds another value: the runtimes' Unmarshal resets first
+		other := t.gen(r)
+		d1, d2 := t.ops.clone(other), t.ops.clone(other)
+		e1, e2 := csproto.Unmarshal(b2, d1), t.ops.unmarshal(b2, d2)
+		if (e1 == nil) != (e2 == nil) || (e1 == nil && !t.ops.equal(d1, d2)) {
+			fail("unmarshal-into-used-vs-runtime", "csproto.Unmarshal into a message that already holds data differs from the runtime's Unmarshal into the same message",
+				fmt.Sprint(d2, e2), fmt.Sprint(d1, e1))
+		}
+		d3 := t.ops.clone(other)
+		if e3 := (csproto.GrpcCodec{}).Unmarshal(b2, d3); (e3 == nil) != (e2 == nil) || (e3 == nil && !t.ops.equal(d3, d2)) {
+			fail("grpc-unmarshal-into-used-vs-runtime", "GrpcCodec.Unmarshal into a message that already holds data differs from the runtime's Unmarshal",
+				fmt.Sprint(d2, e2), fmt.Sprint(d3, e3))
+		}
 		// the gRPC codec is the same pair of functions
 		codec := csproto.GrpcCodec{}
 		b3, err := codec.Marshal(m)
